@@ -42,6 +42,8 @@ THEOREMS = [
     "BeyondVerif.C10.light_frame_independent",
     "BeyondVerif.C10.passes_spec",
     "BeyondVerif.C10.stationKinds_spec",
+    "BeyondVerif.C10.visibility_own_listeners_attached",
+    "BeyondVerif.C10.visibility_horizon_complete",
     "BeyondVerif.Listen.bisect2_eq_wf",
     "BeyondVerif.Listen.bisectSteps_eq_wf",
     "BeyondVerif.C10W.backward_chronological",
@@ -59,7 +61,9 @@ LEVEL_TEXT = ("Lean theorems over a model of Speaker.listen/_bisect/Listener.che
               "(dates in integer microseconds, timedelta/2 as round-half-even): an event is emitted between two samples iff the listener's guard holds "
               "and the sign of f differs (exactly one per listener), it lies in (t_k, t_k+1] (resp. [t_k+1, t_k) backward), f changes sign within 1 us of it, "
               "the stream is ordered in the direction of the iteration (forward and backward), events of one step with the same date keep the order of the "
-              "listeners list (stable sort, both directions), listener history is irrelevant; events_iterator is the label filter of the stream and find_event "
+              "listeners list (stable sort, both directions), listener history is irrelevant; with a truthy `events` the station's own AOS/LOS, MAX (and mask) listeners follow the caller's "
+              "whatever those are — also listeners of the same class attached to the same station — and every sign change of the elevation between two samples has its event of the station's own "
+              "horizon listener in the visibility stream; events_iterator is the label filter of the stream and find_event "
               "returns the item preceded by exactly `offset` items of that label, raising RuntimeError iff there are too few (or offset < 0); _bisect terminates "
               "(well-founded definition) in <= log2 passes. Watched quantity, guard, label and event class of every listener class are re-translated from "
               "the Python AST on each run and the label/guard/MAX/visibility theorems re-proved against them (labels match the crossing direction in time "
@@ -112,13 +116,17 @@ RULE = ("correspondence: random listener lists (1-6 listeners out of 14 kinds) x
         "x (one listener: handed over in a list / as a bare Listener object); a quarter of the listeners share the components of their predecessor "
         "(integer polynomials with the same roots: exactly simultaneous crossings, exact on both sides); "
         "node / apside / anomaly listeners with a frame of their own or created with frame=None (reading the stub state's own, settable, frame); "
-        "TopocentricFrame.visibility with 0-7 additional listeners (with / without frame) given through listeners= and/or events= (True / list / single / none), with and without mask, "
+        "TopocentricFrame.visibility with 0-7 additional listeners (with / without frame) given through listeners= and/or events= (True / list / tuple / single / none), with and without mask, "
+        "in 40 % of the cases 1-3 of them attached to the very station object visibility is called on (StationSignalListener with elev = 0 or != 0, Max, Mask, RadialVelocity, or the complete "
+        "stations_listeners(station) set: the station's own listeners are attached all the same, each sign change has one event per listener watching it), "
         "plus the three kernel-checked regression witnesses of Witness/C10.lean replayed on the real method; "
         "a case is non-trivial when at least one event is emitted (visibility: and one sample is below the horizon); plus _bisect alone (result and number of propagations); "
         "plus LightListener.__call__ vs the translated formulas on state vectors -3..12 Earth radii behind the Earth, random and within 0 / 1 mm / 1 m / 1 km of the real umbra / penumbra boundary (exact +-1 agreement; non-trivial: in shadow); "
         "plus the real events_iterator (0-4 labels) / find_event (label, offset -1..7) over the real stream (non-trivial: something is returned). "
         "oracle: every clause as a predicate on real orbits (see samples); tolerances from the property text; families ordered cheap-first "
-        "(simultaneous crossings, steep-edged masks, shadow events of one trajectory expressed in / computed from EME2000, ITRF and station frames, large anomaly steps, backward, geosynchronous, numerical, ephemeris, analytical, visibility); when a proof / translator / "
+        "(simultaneous crossings, steep-edged masks, shadow events of one trajectory expressed in / computed from EME2000, ITRF and station frames, large anomaly steps, backward, geosynchronous, numerical, ephemeris, analytical, visibility — the latter also with additional listeners of the caller attached to the same station "
+        "(elevation thresholds 2-12 deg and below the horizon, Max / Mask / RadialVelocity, the whole stations_listeners set; through events= list / single object / listeners=): same samples and same own "
+        "AOS/LOS/MAX/mask events as visibility(events=True), nothing that belongs to no listener, and, independently of listeners.py, a zero-elevation AOS/LOS wherever the elevation changes sign between two samples); when a proof / translator / "
         "correspondence is broken in the quick tier the 10x sample is bounded (20 s per family and 150 s in total once 5 inputs of a family have run, 10 where the correspondence points) and stops at the first failing input outside the open findings")
 
 US = None  # timedelta(microseconds=1), set by _setup
@@ -549,6 +557,16 @@ def gen_spec(rng, mode, kind, big=True):
         sp["listeners"], sp["station"] = [], gen_station(rng, o["kep"][2], mask=rng.random() < 0.5)
         # (quick tier: 1.2 to 1.8 revolutions at 60-120 s, otherwise 2 to 4 at 30-120 s — sample size only, same checks)
         sp["start_s"], sp["span_s"], sp["step_s"] = 0.0, P * (rng.uniform(2, 4) if big else rng.uniform(1.2, 1.8)), round(rng.uniform(30, 120) if big else rng.uniform(60, 120), 3)
+        # additional listeners of the caller attached to the SAME station (given through events= or listeners=): an
+        # elevation threshold (`elev` option, degrees), the other station classes, or the complete stations_listeners() set
+        if rng.random() < 0.15:
+            sp["vis_extra"] = [["all"]]
+        else:
+            pool = [["signal", round(rng.uniform(2.0, 12.0), 3)], ["signal", round(rng.uniform(2.0, 12.0), 3)], ["signal", round(rng.uniform(-3.0, -0.5), 3)],
+                    ["radvel", rng.random() < 0.5], ["max"], ["signal", 0.0]] + ([["mask"]] if sp["station"]["mask"] else [])
+            sp["vis_extra"] = [pool[0]] + rng.sample(pool[1:], rng.choice([0, 0, 1, 2]))
+            rng.shuffle(sp["vis_extra"])
+        sp["vis_extra_via"] = rng.choice(["events", "events", "events-single", "listeners"])
     elif mode == "geosync":
         # inclined (eccentric) geosynchronous orbit seen from a station inside its ground-track loop: always in view,
         # the elevation has maxima AND minima while in view
@@ -745,7 +763,7 @@ def run_spec(out, sp):
         # analytical and ephemeris sources); soundness / completeness / order / labels are
         run_stream(out, orb, "numerical", Ls, kw, desc, propagate=None)
     elif mode == "visibility":
-        check_visibility(out, orb, sta, kw, desc)
+        check_visibility(out, orb, sta, kw, desc, sp.get("vis_extra"), sp.get("vis_extra_via", "events"))
     else:
         raise ValueError(mode)
 
@@ -789,7 +807,27 @@ def check_shadow_frames(out, orb, sta, sp, desc):
                      dict(desc, variant=name), observed=evs[:8], expected=ref[:8])
 
 
-def check_visibility(out, orb, sta, kw, desc):
+def build_same_station(extra, sta):
+    """the caller's additional listeners attached to the station `sta` itself (description: see gen_spec, "vis_extra")"""
+    from beyond.propagators import listeners as LS
+    out = []
+    for x in extra:
+        if x[0] == "all":
+            out += LS.stations_listeners(sta)
+        elif x[0] == "signal":
+            out.append(LS.StationSignalListener(sta, elev=math.radians(x[1])) if x[1] else LS.StationSignalListener(sta))
+        elif x[0] == "max":
+            out.append(LS.StationMaxListener(sta))
+        elif x[0] == "mask":
+            out.append(LS.StationMaskListener(sta))
+        elif x[0] == "radvel":
+            out.append(LS.RadialVelocityListener(sta, sight=x[1]))
+        else:
+            raise ValueError(x[0])
+    return out
+
+
+def check_visibility(out, orb, sta, kw, desc, extra=None, via="events"):
     """TopocentricFrame.visibility: exactly the above-horizon samples plus AOS/LOS/MAX (and mask) events"""
     from datetime import timedelta
     from beyond.propagators import listeners as LS
@@ -846,6 +884,8 @@ def check_visibility(out, orb, sta, kw, desc):
     #  fixed finding C10-visibility-prev-frame-mutated, d3db55e; the family stays)
     with_user(lambda: [LS.ApsideListener()], "visibility:prev-frame-mutated",
               "visibility with an additional frame-less listener: spurious / missing events (the yielded point, still `listener.prev`, was re-framed in place)", 1.0)
+    if extra:
+        check_same_station(out, orb, sta, kw, desc, extra, via, got)
     # a caller-owned listeners list, used twice
     mine = [LS.NodeListener()]
     kw2 = dict(kw, stop=timedelta(seconds=min(kw["stop"].total_seconds(), 1.2 * period(orb))))
@@ -855,6 +895,76 @@ def check_visibility(out, orb, sta, kw, desc):
     if a != b:
         out.fail("visibility:reuse-listeners-list", "calling visibility twice with the same caller-owned listeners list gives a different stream",
                  dict(desc, listeners_after=len(mine)), observed=len(b), expected=len(a))
+
+
+def check_same_station(out, orb, sta, kw, desc, extra, via, plain):
+    """visibility with additional listeners of the caller that are attached to the SAME station (an elevation threshold, a
+    radial-velocity listener, the station classes again, the whole stations_listeners() set).  `plain`: the events=True stream.
+    (a) the samples are those of the plain stream; (b) every event of the plain stream — the station's own AOS/LOS (zero
+    elevation), MAX, mask events — is in the stream, same date and label, at least once; (c) whatever else is in the stream
+    carries one of the caller's listeners, and its watched quantity is that listener's; (d) independent of listeners.py:
+    wherever the elevation changes sign between two consecutive samples there is an AOS resp. LOS event of zero elevation
+    between them."""
+    from datetime import timedelta
+    from beyond.propagators import listeners as LS
+    fam = "visibility:same-station-listeners"
+    span = min(kw["stop"].total_seconds(), 1.3 * period(orb))
+    kwu = dict(kw, stop=timedelta(seconds=span))
+    user = build_same_station(extra, sta)
+    if via == "listeners":
+        got = list(sta.visibility(orb, events=True, listeners=user, **kwu))
+    elif via == "events-single" and len(user) == 1:
+        got = list(sta.visibility(orb, events=user[0], **kwu))
+    else:
+        got = list(sta.visibility(orb, events=list(user), **kwu))
+    # both iterations walk the same sample grid (same start and step): the plain stream up to the last sample of the shorter one
+    dates = [o.date for o in orb.iter(**kwu)]
+    last = dates[-1]
+    d = dict(desc, same_station=[lname(L) + ("@%g" % math.degrees(L.elev) if type(L) is LS.StationSignalListener else "") for L in user], via=via)
+    ref = [o for o in plain if o.date <= last]
+    key = lambda o: (o.date._mjd, o.event.info if o.event else None)
+    n_user = sum(1 for o in got if o.event and any(o.event.listener is L for L in user))
+    n_own = sum(1 for o in ref if o.event)
+    out.count(key=(fam, desc["epoch"]), nontrivial=n_user > 0 and n_own > 0, kind=fam, same_station_via=via,
+              same_station_kinds="+".join(sorted({x[0] + ("@elev" if x[0] == "signal" and x[1] else "") for x in extra})))
+    s_ref, s_got = [key(o) for o in ref if not o.event], [key(o) for o in got if not o.event]
+    if s_ref != s_got:
+        out.fail(fam, "visibility with additional listeners attached to the same station: the sample points differ from those of visibility(events=True)",
+                 d, observed=len(s_got), expected=len(s_ref))
+        return
+    is_user = lambda q: any(q.event.listener is L for L in user)
+    pool = sorted((o for o in got if o.event), key=is_user)      # (the station's own listeners first)
+    missing = []
+    for o in ref:
+        if o.event:
+            hit = next((q for q in pool if key(q) == key(o) and type(q.event) is type(o.event) and getattr(q.event.listener, "elev", 0) == 0), None)
+            if hit is None:
+                missing.append(o)
+            else:
+                pool = [q for q in pool if q is not hit]
+    pool = [q for q in pool if not is_user(q)]
+    if missing or pool:
+        out.fail(fam, "visibility with additional listeners attached to the same station: the events of the station's own listeners (zero-elevation AOS/LOS, MAX, mask) "
+                      "are not those of visibility(events=True) — missing, or events that belong to no listener of the caller",
+                 dict(d, missing=[(str(o.date), o.event.info, float(o.phi)) for o in missing[:4]], unexpected=[(str(o.date), o.event.info) for o in pool[:4]]),
+                 observed=len([o for o in got if o.event]) - n_user, expected=n_own)
+        return
+    for o in got:
+        if o.event and type(o.event.listener) is LS.StationSignalListener and any(o.event.listener is L for L in user):
+            L = o.event.listener
+            if abs(float(o.phi) - L.elev) > 3e-9 and not any((orb.propagate(o.date - k * US).copy(frame=sta, form="spherical").phi - L.elev) * (o.phi - L.elev) <= 0 for k in range(1, 6)):
+                out.fail(fam, "event of the caller's elevation-threshold listener is not at its threshold", dict(d, event=str(o.date)), observed=float(o.phi), expected=L.elev)
+                return
+    # (d) every sign change of the elevation between consecutive samples has its zero-elevation AOS / LOS
+    phis = [float(orb.propagate(x).copy(frame=sta, form="spherical").phi) for x in dates]
+    for a, b, pa, pb in zip(dates, dates[1:], phis, phis[1:]):
+        if pa * pb < 0:
+            lab = "AOS" if pb > 0 else "LOS"
+            lo, hi = min(a, b), max(a, b)
+            if not any(o.event and type(o.event) is LS.SignalEvent and o.event.info == lab and lo <= o.date <= hi and abs(float(o.phi)) < 1e-6 for o in got):
+                out.fail(fam, f"the elevation changes sign between two consecutive samples but the visibility stream holds no zero-elevation {lab} between them",
+                         dict(d, between=[str(a), str(b)], elevations=[pa, pb]), observed=None, expected=lab)
+                return
 
 
 HUNT_FAMILY_CAP_S = 20.0     # widened oracle in the quick tier: time given to one family of inputs …
@@ -1321,6 +1431,7 @@ ANOM_UNIT = 1 << 20
 OWN = "own-frame"     # key of `chans` holding the Key of the frame the stub states are produced in
 n_shared = [0]   # listeners generated with the components of their predecessor (evidence only)
 FRAMELESS = ("node", "apside", "anomaly:true", "anomaly:mean", "anomaly:eccentric", "anomaly:aol")   # classes whose `frame` defaults to None
+ON_STATION = ("signal", "mask", "max", "radvel0", "radvel1")   # classes that take a station: can be attached to the station `visibility` is called on
 KINDS = ["node", "apside", "signal", "mask", "max", "radvel0", "radvel1", "umbra", "penumbra", "terminator",
          "anomaly:true", "anomaly:mean", "anomaly:eccentric", "anomaly:aol"]
 
@@ -1442,8 +1553,9 @@ class _Env:
         from datetime import timedelta
         return self.EPOCH + timedelta(microseconds=t)
 
-    def build(self, specs, own):
-        """specs: list of (kind, A, B, C, D, elev), kind + "@" for a listener created with frame=None (A–D empty);
+    def build(self, specs, own, station=None):
+        """specs: list of (kind, A, B, C, D, elev), kind + "@" for a listener created with frame=None (A–D empty),
+        kind + "=" for a listener attached to the object `station` itself (A–D: the components of that station);
         own: (A, B, C, D) components of the states in their own frame  ->  (listeners, chans)"""
         LS = self.LS
         chans = {}
@@ -1455,6 +1567,12 @@ class _Env:
             if kind.endswith("@"):
                 kind, key = kind[:-1], None
                 if kind not in FRAMELESS:
+                    raise ValueError(kind)
+            elif kind.endswith("="):
+                # bound to the very station object `visibility` is called on (same class as one of the station's own
+                # listeners or not, watching the same quantity or not — `elev`)
+                kind, key = kind[:-1], station
+                if station is None or kind not in ON_STATION:
                     raise ValueError(kind)
             else:
                 entry = (A, B, C, D, E)
@@ -1605,7 +1723,8 @@ def _p(cs):
 
 
 def _specs_txt(specs):
-    return " ".join(f"{k} {_p(A)} {_p(B)} {_p(C)} {_p(D)} {E}" for k, A, B, C, D, E in specs)
+    # (for the model a listener attached to the station itself is a listener whose components are the station's: `=` dropped)
+    return " ".join(f"{k.rstrip('=')} {_p(A)} {_p(B)} {_p(C)} {_p(D)} {E}" for k, A, B, C, D, E in specs)
 
 
 def case_line(ts, specs, own):
@@ -1800,9 +1919,25 @@ def gen_vis_case(rng):
         # one more frame-less listener: the case the in-place re-framing of the yielded points used to break
         specs = specs + [(rng.choice(["node@", "apside@"]), [], [], [], [], 0)]
         rng.shuffle(specs)
+    has_mask = rng.random() < 0.5
+    r = rng.random()
+    if r < 0.4:
+        # listeners of the caller attached to the SAME station object: of the classes of the station's own listeners (with the
+        # same or another `elev`), of other classes, or the complete `stations_listeners(station)` set — the station's own
+        # listeners are attached all the same, every sign change has its event from each listener watching it
+        if r < 0.08:
+            extra = [("signal=",) + sta[:4] + (0,), ("max=",) + sta[:4] + (0,)] + ([("mask=",) + sta[:4] + (0,)] if has_mask else [])
+        else:
+            extra = []
+            for _ in range(rng.choice([1, 1, 2, 3])):
+                k = rng.choice(["signal", "signal", "signal", "max", "mask", "radvel0", "radvel1"])
+                extra.append((k + "=",) + sta[:4] + (rng.choice([0, 1, -2, 1000, 5, -1]) if k == "signal" else 0,))
+        specs = list(specs)
+        for x in extra:
+            specs.insert(rng.randint(0, len(specs)), x)
     nl = rng.randint(0, len(specs))        # the first nl through listeners=, the others through events=
-    how = rng.choice(["true", "list", "list", "single", "none"])
-    if how == "list" and nl == len(specs):
+    how = rng.choice(["true", "list", "list", "tuple", "single", "none"])
+    if how in ("list", "tuple") and nl == len(specs):
         how = "true"
     if how == "single":
         if not specs:
@@ -1811,7 +1946,6 @@ def gen_vis_case(rng):
             nl = len(specs) - 1
     if how in ("true", "none"):
         nl = len(specs)
-    has_mask = rng.random() < 0.5
     mode = rng.choice(["dates", "dates", "range"])
     if mode == "range" and len({ts[i + 1] - ts[i] for i in range(len(ts) - 1)}) != 1:
         mode = "dates"
@@ -1829,8 +1963,8 @@ def real_visibility(env, ts, specs, sta, nl, how, has_mask, mode, history, own):
     from datetime import timedelta
     from beyond.frames.stations import TopocentricFrame
     LS = env.LS
-    Ls, chans = env.build(specs, own)
     station = env.Key(sta, mask=True if has_mask else None)
+    Ls, chans = env.build(specs, own, station)
     chans[station] = sta
     src = env.StubProp(chans)
     dates = [env.date(t) for t in ts]
@@ -1847,6 +1981,8 @@ def real_visibility(env, ts, specs, sta, nl, how, has_mask, mode, history, own):
             kw["events"] = True
         elif how == "list":
             kw["events"] = list(Ls[nl:])
+        elif how == "tuple":
+            kw["events"] = tuple(Ls[nl:])
         elif how == "single":
             kw["events"] = Ls[nl]
         return TopocentricFrame.visibility(station, src, listeners=mine, **kw)
@@ -1915,8 +2051,10 @@ def correspondence(ctx):
         nev = sum(1 for it in m.split(";") if it and not it.endswith("/-"))
         below = sum(1 for t in ts if evalpoly(sta[0], t) < 0)
         nfl = sum(1 for sp in specs if sp[0].endswith("@"))
+        non = sum(1 for sp in specs if sp[0].endswith("="))
         out.count(key=("vis", tuple(ts), tuple((s[0], tuple(s[1])) for s in specs), tuple(sta[0]), tuple(own[2]), how, has_mask, mode, history),
-                  nontrivial=nev > 0 and (below > 0 or skind == "witness"), vis_events=how, vis_mode=mode, vis_user=min(len(specs), 4), vis_frameless=min(nfl, 2))
+                  nontrivial=nev > 0 and (below > 0 or skind == "witness"), vis_events=how, vis_mode=mode, vis_user=min(len(specs), 4), vis_frameless=min(nfl, 2),
+                  vis_same_station=min(non, 3))
         if real != m:
             out.fail("visibility-stream", "stream of TopocentricFrame.visibility differs between the model and the real method",
                      {"vis": True, "samples": ts, "specs": specs, "sta": sta, "nl": nl, "how": how, "has_mask": has_mask, "mode": mode,
